@@ -9,6 +9,7 @@ import HealSparse.Model.ScalarOps
 import HealSparse.Props.C04
 import HealSparse.Props.C02
 import HealSparse.Lemmas.ScalarOps
+import HealSparse.Lemmas.ApiScalar
 namespace HS
 namespace C12
 
@@ -118,6 +119,827 @@ theorem asBitPacked_spec (c : Cfg) (vc : VCfg V) (s : State V) (h : Inv c vc s)
 /-- non-vacuity: a map with a valid, an invalid-covered and uncovered pixels -/
 example : (scalarOp (V := Int) ⟨-1, fun x => x != -1⟩ ⟨#[2, -2], #[-1, -1, 5, -1]⟩ (· * 3)).sp
     = #[-1, -1, 15, -1] := by decide +kernel
+
+end C12
+end HS
+
+/-! ## API level (campaign E5)
+
+The theorems above are about the generic core (`scalarOp`, `applyMask`, `astypeMap`,
+`asBitPacked`) on any state satisfying `Inv`.  The theorems below are about the API functions
+themselves — `apiScalarOp` (`_apply_operation`: `+ - * / ** & | ^` with a constant or a bit list),
+`apiApplyMask`, `apiAstype`, `apiAsBitPacked` of Model/Api.lean, argument validation, dtype and
+sentinel rules and error behaviour included — for every well-formed map object, and about what
+the protocol driver stores (`opSop`).  Helper definitions (`sopError`, `sopCell`, `maskError`,
+`maskBad`, `astypeSrc`, the flat-form equations `api…_eq`) are in Lemmas/ApiScalar.lean.
+
+Hypotheses (the weakest that work):
+  * scalar operators: `m.WF` only (the call's own kind checks make the blank cell invalid);
+  * `apply_mask`, `astype`, `as_bit_packed_map`: `m.WF ∧ m.BlankInvalid` (`BlankInvalid` follows
+    from `KindOk`, hence from `MapObj.Ok`; it is automatic for numeric maps and wide masks);
+    NOTHING is assumed of the mask map.
+`inexact` = the exact model declines to predict an IEEE-rounded result: no claim is made. -/
+namespace HS
+namespace C12
+
+open ApiScalar WFApi ApiRanges
+
+/-! ### (1) scalar operators -/
+
+/-- **scalar operators at the API level act on exactly the valid pixels.**  For a well-formed
+    map (`WF` alone: the kind checks of the call itself make the blank cell invalid), if
+    `m <op> k` (in place or copying) succeeds with storage `st`, then the stored object
+    `m.withSt st` is well formed, has the coverage mask of `m`, the call has passed the
+    validation `sopError`, and for every sky pixel `p`:
+    * `p` valid in `m`: the new value is the numpy operation at the map's dtype,
+      `sopCell kind op k (old value)` (`scalarCell dt op k` for a numeric map, the byte-wise
+      bit operation for a wide mask);
+    * `p` not valid in `m` (covered or not): the cell is unchanged (it holds the blank). -/
+theorem api_scalarOp_spec {m : MapObj} {op : String} {k : Scalar} {st : State Val}
+    (h : m.WF) (hr : apiScalarOp m op k = .ok st) :
+    (m.withSt st).WF ∧ apiCovMask (m.withSt st) = apiCovMask m ∧
+    sopError m.kind op k = none ∧
+    ∀ p, p < m.npix →
+      (m.vc.valid (m.abs p) = true →
+        sopCell m.kind op k (m.abs p) = some ((m.withSt st).abs p)) ∧
+      (m.vc.valid (m.abs p) = false → (m.withSt st).abs p = m.abs p) := by
+  obtain ⟨hE, hany, rfl⟩ := apiScalarOp_ok_st hr
+  have hv : m.BlankInvalid := by
+    rcases sopError_none_kind hE with ⟨n, hn⟩ | ⟨dt, hd, _⟩
+    · exact MapObj.blankInvalid_of_wide hn
+    · exact MapObj.blankInvalid_of_plain hd
+  obtain ⟨hinv, habs, hcov⟩ := scalarOp_spec m.c m.vc m.st
+    (fun x => (sopCell m.kind op k x).getD x) h.2 hv
+  refine ⟨⟨h.1, hinv⟩, apiCovMask_congr rfl rfl hcov, hE, fun p hp => ?_⟩
+  have hab : (m.withSt (scalarOp m.vc m.st fun x => (sopCell m.kind op k x).getD x)).abs p
+      = if m.vc.valid (m.abs p) then (sopCell m.kind op k (m.abs p)).getD (m.abs p) else m.abs p :=
+    habs p hp
+  constructor
+  · intro hval
+    rw [hab, hval]
+    simp only [if_true]
+    have hnone := List.any_eq_false.1 hany (m.abs p)
+      (List.mem_filter.2 ⟨abs_mem_sp h.2 hp, hval⟩)
+    cases hc : sopCell m.kind op k (m.abs p) with
+    | none => rw [hc] at hnone; exact absurd rfl hnone
+    | some y => rfl
+  · intro hval
+    rw [hab, hval]
+    simp
+
+/-- **validation errors of the scalar operators, exactly**: an error other than `inexact` is
+    raised iff it is the one `sopError` names — a function of the map's KIND, the operator and
+    the operand only (no hypothesis on the map; the storage is never looked at) -/
+theorem api_scalarOp_validation_iff (m : MapObj) (op : String) (k : Scalar) {e : Err}
+    (he : e ≠ .inexact) : apiScalarOp m op k = .error e ↔ sopError m.kind op k = some e := by
+  rw [apiScalarOp_eq]
+  cases hE : sopError m.kind op k with
+  | some e' => simp
+  | none =>
+    simp only
+    split
+    · simp only [reduceCtorEq, iff_false]
+      intro h
+      cases h
+      exact he rfl
+    · simp
+
+/-- `NotImplementedError` of `m <op> k`, exactly -/
+theorem api_scalarOp_notImpl_iff (m : MapObj) (op : String) (k : Scalar) :
+    apiScalarOp m op k = .error .notImpl ↔
+      (∃ fs pr, m.kind = .recd fs pr) ∨ m.kind.isBool = true ∨
+      (intOnlyOp op = true ∧ m.kind.isIntegerMap = false) ∨
+      (intOnlyOp op = false ∧ ∃ n, m.kind = .wide n) ∨
+      ((∃ l, k = .bits l) ∧ ¬ ∃ n, m.kind = .wide n) ∨
+      ((∃ n, m.kind = .wide n) ∧ ¬ ∃ l, k = .bits l) ∨
+      (intOnlyOp op = true ∧ ∃ q, k = .flt q) := by
+  rw [api_scalarOp_validation_iff m op k (by decide), sopError_notImpl_iff]
+
+/-- `ValueError` of `m <op> k`, exactly: a wide mask with an empty bit list or a bit position
+    `≥ maxbits`; an integer map raised to a negative integer power -/
+theorem api_scalarOp_value_iff (m : MapObj) (op : String) (k : Scalar) :
+    apiScalarOp m op k = .error .value ↔
+      (∃ n l, m.kind = .wide n ∧ k = .bits l ∧ intOnlyOp op = true ∧ (l = [] ∨ ∃ b ∈ l, 8 * n ≤ b)) ∨
+      (∃ b sg, m.kind = .plain (.int b sg) ∧
+        ∃ q, k = .int q ∧ wrapInt b sg q = q ∧ op = "pow" ∧ q < 0) := by
+  rw [api_scalarOp_validation_iff m op k (by decide), sopError_value_iff]
+
+/-- `TypeError` / `OverflowError` of `m <op> k`, exactly: on an integer map, a real constant
+    (with `+ - * / **`), a Python integer outside the dtype's range, or true division -/
+theorem api_scalarOp_type_iff (m : MapObj) (op : String) (k : Scalar) :
+    apiScalarOp m op k = .error .type ↔
+      ∃ b sg, m.kind = .plain (.int b sg) ∧
+        ((intOnlyOp op = false ∧ ∃ q, k = .flt q) ∨
+         (∃ q, k = .int q ∧ (wrapInt b sg q ≠ q ∨ op = "div"))) := by
+  rw [api_scalarOp_validation_iff m op k (by decide), sopError_type_iff]
+
+/-- no other error class is ever raised -/
+theorem api_scalarOp_error_classes {m : MapObj} {op : String} {k : Scalar} {e : Err}
+    (h : apiScalarOp m op k = .error e) :
+    e = .notImpl ∨ e = .value ∨ e = .type ∨ e = .inexact := by
+  by_cases he : e = .inexact
+  · exact Or.inr (Or.inr (Or.inr he))
+  · have := (api_scalarOp_validation_iff m op k he).1 h
+    rcases sopError_range m.kind op k with h' | h' | h' | h' <;> rw [h'] at this <;> cases this <;> simp
+
+/-- **`inexact` (the model declines to predict IEEE rounding — no claim is made about the
+    library there), exactly**: the call passes validation and some VALID PIXEL has no exactly
+    representable result -/
+theorem api_scalarOp_inexact_iff {m : MapObj} (h : m.WF) (op : String) (k : Scalar) :
+    apiScalarOp m op k = .error .inexact ↔
+      sopError m.kind op k = none ∧
+      ∃ p, p < m.npix ∧ m.vc.valid (m.abs p) = true ∧ sopCell m.kind op k (m.abs p) = none := by
+  rw [apiScalarOp_eq]
+  cases hE : sopError m.kind op k with
+  | some e =>
+    have := sopError_ne_inexact m.kind op k
+    rw [hE] at this
+    simp only [reduceCtorEq, false_and, iff_false]
+    intro h'
+    cases h'
+    exact this rfl
+  | none =>
+    have hv : m.BlankInvalid := by
+      rcases sopError_none_kind hE with ⟨n, hn⟩ | ⟨dt, hd, _⟩
+      · exact MapObj.blankInvalid_of_wide hn
+      · exact MapObj.blankInvalid_of_plain hd
+    simp only [true_and]
+    have hiff := any_valid_iff h.2 hv (fun x => (sopCell m.kind op k x).isNone)
+    split
+    · rename_i hany
+      simp only [true_iff]
+      obtain ⟨p, hp, hval, hq⟩ := hiff.1 hany
+      exact ⟨p, hp, hval, Option.isNone_iff_eq_none.1 hq⟩
+    · rename_i hany
+      simp only [reduceCtorEq, false_iff]
+      rintro ⟨p, hp, hval, hq⟩
+      exact hany (hiff.2 ⟨p, hp, hval, Option.isNone_iff_eq_none.2 hq⟩)
+
+/-- **success, exactly**: the call passes validation and every valid pixel has an exact result -/
+theorem api_scalarOp_ok_iff {m : MapObj} (h : m.WF) (op : String) (k : Scalar) :
+    (∃ st, apiScalarOp m op k = .ok st) ↔
+      sopError m.kind op k = none ∧
+      ∀ p, p < m.npix → m.vc.valid (m.abs p) = true → (sopCell m.kind op k (m.abs p)).isSome = true := by
+  constructor
+  · rintro ⟨st, hr⟩
+    obtain ⟨_, _, hE, hpix⟩ := api_scalarOp_spec h hr
+    refine ⟨hE, fun p hp hval => ?_⟩
+    rw [(hpix p hp).1 hval]
+    rfl
+  · rintro ⟨hE, hall⟩
+    cases hr : apiScalarOp m op k with
+    | ok st => exact ⟨st, rfl⟩
+    | error e =>
+      exfalso
+      by_cases he : e = .inexact
+      · subst he
+        obtain ⟨_, p, hp, hval, hnone⟩ := (api_scalarOp_inexact_iff h op k).1 hr
+        have := hall p hp hval
+        rw [hnone] at this
+        cases this
+      · have := (api_scalarOp_validation_iff m op k he).1 hr
+        rw [hE] at this
+        cases this
+
+/-- **the valid set after a scalar operator**: a pixel is valid afterwards iff it was valid
+    before AND the result of the operation is itself a valid cell — i.e. (numeric maps) differs
+    from the sentinel, (wide masks) has a bit left.  A result equal to the sentinel silently
+    turns the pixel invalid (the library's documented representation of "no value"); no pixel
+    ever becomes valid. -/
+theorem api_scalarOp_valid {m : MapObj} {op : String} {k : Scalar} {st : State Val}
+    (h : m.WF) (hr : apiScalarOp m op k = .ok st) (p : Nat) (hp : p < m.npix) :
+    (m.withSt st).vc.valid ((m.withSt st).abs p) = true ↔
+      m.vc.valid (m.abs p) = true ∧
+        ∃ y, sopCell m.kind op k (m.abs p) = some y ∧ m.vc.valid y = true := by
+  obtain ⟨_, _, _, hpix⟩ := api_scalarOp_spec h hr
+  obtain ⟨h1, h2⟩ := hpix p hp
+  show m.vc.valid ((m.withSt st).abs p) = true ↔ _
+  cases hval : m.vc.valid (m.abs p) with
+  | true =>
+    have := h1 hval
+    rw [this]
+    simp
+  | false =>
+    rw [h2 hval, hval]
+    simp
+
+/-- the sentinel collision, spelled out for a numeric map: a valid pixel whose result is the
+    sentinel reads the sentinel afterwards and is no longer valid -/
+theorem api_scalarOp_collision {m : MapObj} {op : String} {k : Scalar} {st : State Val} {dt : DT}
+    (h : m.WF) (hk : m.kind = .plain dt) (hr : apiScalarOp m op k = .ok st) (p : Nat)
+    (hp : p < m.npix) (hval : m.vc.valid (m.abs p) = true)
+    (hc : sopCell m.kind op k (m.abs p) = some m.sent) :
+    (m.withSt st).abs p = m.sent ∧ (m.withSt st).vc.valid ((m.withSt st).abs p) = false := by
+  obtain ⟨_, _, _, hpix⟩ := api_scalarOp_spec h hr
+  have habs : (m.withSt st).abs p = m.sent := by
+    have := (hpix p hp).1 hval
+    rw [hc] at this
+    exact (Option.some.inj this).symm
+  refine ⟨habs, ?_⟩
+  show m.vc.valid ((m.withSt st).abs p) = false
+  have hb := MapObj.blankInvalid_of_plain hk
+  unfold MapObj.BlankInvalid at hb
+  have hs : m.vc.sentinel = m.sent := by unfold MapObj.vc; rw [hk]; rfl
+  rw [hs] at hb
+  rw [habs]
+  exact hb
+
+/-! ### (2) in place = copying: what the protocol driver `sop` stores -/
+
+/-- **`sop` in place, on a map that owns its storage**: answers `ok`, and the operand's name now
+    reads `m.withSt st` (the cells of `api_scalarOp_spec`, cache reset) -/
+theorem sop_inplace {w : World} {a : Args} {n : String} {rest : List String} {m : MapObj}
+    {k : Scalar} {st : State Val} (hpos : a.pos = n :: rest) (hget : w.get? n = some m)
+    (hk : sopArg a = some k) (hown : m.view = none) (hip : a.flag "inplace" = true)
+    (hr : apiScalarOp m (a.getD "op" "add") k = .ok st) :
+    (opSop w a).2 = "ok" ∧ (opSop w a).1.get? n = some (m.withSt st) := by
+  rw [opSop_eq w a n rest m k hpos hget hk, hr]
+  simp only [hip, ↓reduceIte, true_and]
+  rw [World.put_eq_bind (show (m.withSt st).view = none from hown), get?_bind_self,
+    withSt_view_none hown]
+
+/-- **`sop` copying**: answers `ok`, the `r=` name reads the SAME object `m.withSt st` (owning its
+    storage), and the operand, if it owns its storage and has another name, is untouched —
+    cache included -/
+theorem sop_copy {w : World} {a : Args} {n : String} {rest : List String} {m : MapObj}
+    {k : Scalar} {st : State Val} (hpos : a.pos = n :: rest) (hget : w.get? n = some m)
+    (hk : sopArg a = some k) (hip : a.flag "inplace" = false)
+    (hr : apiScalarOp m (a.getD "op" "add") k = .ok st) :
+    (opSop w a).2 = "ok" ∧
+    (opSop w a).1.get? (a.getD "r" "tmp") = some { m.withSt st with view := none } ∧
+    (m.view = none → a.getD "r" "tmp" ≠ n → (opSop w a).1.get? n = some m) := by
+  rw [opSop_eq w a n rest m k hpos hget hk, hr]
+  simp only [hip, Bool.false_eq_true, ↓reduceIte, true_and]
+  exact ⟨get?_bind_self _ _ _, fun hown hne => get?_bind_ne hne hget hown⟩
+
+/-- **in place = copying** (one operand, one operator, one constant; two protocol lines that
+    differ in the `inplace` flag): both answer the same line; on success the operand's name after
+    the in-place call and the `r=` name after the copying call read the SAME object — same
+    resolution, kind, sentinel, coverage index and cells, cold cache; on an error neither call
+    changes any map of the world (`SameMaps`: only `n_valid` caches may be reset) -/
+theorem sop_inplace_eq_copy {w : World} (hw : w.Good) {aI aC : Args} {n : String}
+    {restI restC : List String} {m : MapObj} {k : Scalar}
+    (hposI : aI.pos = n :: restI) (hposC : aC.pos = n :: restC) (hget : w.get? n = some m)
+    (hown : m.view = none) (hkI : sopArg aI = some k) (hkC : sopArg aC = some k)
+    (hop : aI.getD "op" "add" = aC.getD "op" "add")
+    (hI : aI.flag "inplace" = true) (hC : aC.flag "inplace" = false) :
+    (opSop w aI).2 = (opSop w aC).2 ∧
+    ((opSop w aI).2 = "ok" →
+      (opSop w aI).1.get? n = (opSop w aC).1.get? (aC.getD "r" "tmp") ∧
+      ∃ st, apiScalarOp m (aC.getD "op" "add") k = .ok st ∧
+        (opSop w aI).1.get? n = some (m.withSt st)) ∧
+    ((opSop w aI).2 ≠ "ok" → SameMaps (opSop w aI).1 w ∧ SameMaps (opSop w aC).1 w) := by
+  cases hr : apiScalarOp m (aC.getD "op" "add") k with
+  | ok st =>
+    obtain ⟨i1, i2⟩ := sop_inplace hposI hget hkI hown hI (by rw [hop]; exact hr)
+    obtain ⟨c1, c2, _⟩ := sop_copy hposC hget hkC hC hr
+    refine ⟨by rw [i1, c1], fun _ => ⟨?_, st, rfl, i2⟩, fun hne => absurd i1 hne⟩
+    rw [i2, c2, withSt_view_none hown]
+  | error e =>
+    have eI : (opSop w aI).2 = errLine e := by
+      rw [opSop_eq w aI n restI m k hposI hget hkI, hop, hr]
+    have eC : (opSop w aC).2 = errLine e := by
+      rw [opSop_eq w aC n restC m k hposC hget hkC, hr]
+    have hne : errLine e ≠ "ok" := errLine_ne_ok e
+    refine ⟨by rw [eI, eC], fun hok => absurd (eI ▸ hok) hne, fun _ => ⟨?_, ?_⟩⟩
+    · exact opSop_not_ok hw aI (by rw [eI]; exact hne)
+    · exact opSop_not_ok hw aC (by rw [eC]; exact hne)
+
+/-- **which failing in-place calls reset the operand's `n_valid` cache**: the four checks that
+    precede `self._n_valid = None` in the source (a record map, a boolean map, an integer-only
+    operator on a non-integer map, another operator on a wide mask — all `NotImplementedError`)
+    leave the object untouched; every later failure (`bit list` / constant type checks, the
+    numpy casting, overflow and negative-power errors, `inexact`) has already reset it.
+    The copying form never touches the operand. -/
+theorem sop_error_world {w : World} {a : Args} {n : String} {rest : List String} {m : MapObj}
+    {k : Scalar} {e : Err} (hpos : a.pos = n :: rest) (hget : w.get? n = some m)
+    (hk : sopArg a = some k) (hr : apiScalarOp m (a.getD "op" "add") k = .error e) :
+    (opSop w a).2 = errLine e ∧
+    (opSop w a).1 =
+      if a.flag "inplace" = true ∧ sopEarly m.kind (a.getD "op" "add") = false
+      then w.put n { m with cache := none } else w := by
+  rw [opSop_eq w a n rest m k hpos hget hk, hr]
+  refine ⟨rfl, ?_⟩
+  simp only
+  cases a.flag "inplace" <;> cases sopEarly m.kind (a.getD "op" "add") <;> simp
+
+/-! ### (3) `apply_mask` -/
+
+/-- **`apply_mask` at the API level.**  For a well-formed map whose blank cell is invalid
+    (`KindOk` gives that; automatic for numeric maps and wide masks) and ANY mask object —
+    nothing is required of the mask map: not well-formedness, not its coverage, not even its
+    resolution — if `m.apply_mask(mask, mask_bits, mask_bit_arr)` succeeds with storage `st`:
+    the stored object is well formed, the coverage mask is unchanged, the mask passed the
+    validation `maskError`, every valid pixel of `m` is a pixel number of the mask map, and
+    for every sky pixel `p` of `m`: the cell becomes the blank iff `p` is valid in `m` AND the
+    mask map's value at pixel NUMBER `p` is bad (`maskBad`); every other cell is unchanged. -/
+theorem api_applyMask_spec {m mask : MapObj} {mb : Option Int} {ba : Option (List Nat)}
+    {st : State Val} (h : m.WF) (hv : m.BlankInvalid) (hr : apiApplyMask m mask mb ba = .ok st) :
+    (m.withSt st).WF ∧ apiCovMask (m.withSt st) = apiCovMask m ∧
+    maskError mask mb ba = none ∧
+    (∀ p, p < m.npix → m.vc.valid (m.abs p) = true → p < mask.npix) ∧
+    ∀ p, p < m.npix → (m.withSt st).abs p =
+      if m.vc.valid (m.abs p) && maskBad mask mb ba p then m.kind.blank m.sent else m.abs p := by
+  obtain ⟨hE, hlt, ham⟩ := apiApplyMask_ok_st h hv hr
+  obtain ⟨s', hs', hinv, habs, hcov⟩ := applyMask_spec m.c m.vc m.st (maskBad mask mb ba) h.2 hv
+  rw [ham] at hs'
+  cases hs'
+  exact ⟨⟨h.1, hinv⟩, apiCovMask_congr rfl rfl hcov, hE, hlt, habs⟩
+
+/-- **the valid set after `apply_mask`** = valid before ∧ not bad in the mask -/
+theorem api_applyMask_valid {m mask : MapObj} {mb : Option Int} {ba : Option (List Nat)}
+    {st : State Val} (h : m.WF) (hv : m.BlankInvalid) (hr : apiApplyMask m mask mb ba = .ok st)
+    (p : Nat) (hp : p < m.npix) :
+    (m.withSt st).vc.valid ((m.withSt st).abs p) = (m.vc.valid (m.abs p) && !maskBad mask mb ba p) := by
+  obtain ⟨_, _, ham⟩ := apiApplyMask_ok_st h hv hr
+  exact applyMask_valid m.c m.vc m.st st (maskBad mask mb ba) h.2 hv ham p hp
+
+/-- **errors of `apply_mask`, exactly**: the validation error `maskError` names (a function of
+    the mask's kind and the two bit arguments only), or `IndexError` when the mask passes
+    validation and some VALID pixel of `m` is not a pixel number of the mask map (possible only
+    for a mask of coarser resolution) -/
+theorem api_applyMask_error_iff {m : MapObj} (h : m.WF) (hv : m.BlankInvalid) (mask : MapObj)
+    (mb : Option Int) (ba : Option (List Nat)) (e : Err) :
+    apiApplyMask m mask mb ba = .error e ↔
+      maskError mask mb ba = some e ∨
+      (e = .index ∧ maskError mask mb ba = none ∧
+        ∃ p, p < m.npix ∧ m.vc.valid (m.abs p) = true ∧ mask.npix ≤ p) := by
+  rw [apiApplyMask_eq]
+  cases hE : maskError mask mb ba with
+  | some e' =>
+    simp only [Except.error.injEq, Option.some.injEq, reduceCtorEq, and_false, false_and, or_false]
+  | none =>
+    obtain ⟨s', hs', _⟩ := applyMask_spec m.c m.vc m.st (maskBad mask mb ba) h.2 hv
+    rw [h.2.validPixels_eq hv, hs']
+    simp only [reduceCtorEq, false_or, true_and]
+    split
+    · rename_i hany
+      rw [List.any_eq_true] at hany
+      obtain ⟨q, hq, hbad⟩ := hany
+      obtain ⟨p, hp, rfl⟩ := List.mem_map.1 hq
+      obtain ⟨hp1, hp2⟩ := (h.2.mem_validCells_map hv p).1 hp
+      simp only [Int.toNat_natCast, ge_iff_le, Bool.or_eq_true, decide_eq_true_eq] at hbad
+      have hle : mask.npix ≤ p := by
+        rcases hbad with hneg | hle
+        · omega
+        · exact hle
+      constructor
+      · intro he
+        cases he
+        exact ⟨rfl, p, hp1, hp2, hle⟩
+      · rintro ⟨rfl, _⟩
+        rfl
+    · rename_i hany
+      simp only [reduceCtorEq, false_iff]
+      rintro ⟨_, p, hp, hval, hle⟩
+      apply hany
+      rw [List.any_eq_true]
+      refine ⟨((p : Nat) : Int), List.mem_map.2 ⟨p, (h.2.mem_validCells_map hv p).2 ⟨hp, hval⟩, rfl⟩, ?_⟩
+      simp only [Int.toNat_natCast, ge_iff_le, Bool.or_eq_true, decide_eq_true_eq]
+      exact Or.inr hle
+
+/-- **success of `apply_mask`, exactly** -/
+theorem api_applyMask_ok_iff {m : MapObj} (h : m.WF) (hv : m.BlankInvalid) (mask : MapObj)
+    (mb : Option Int) (ba : Option (List Nat)) :
+    (∃ st, apiApplyMask m mask mb ba = .ok st) ↔
+      maskError mask mb ba = none ∧
+      ∀ p, p < m.npix → m.vc.valid (m.abs p) = true → p < mask.npix := by
+  constructor
+  · rintro ⟨st, hr⟩
+    obtain ⟨hE, hlt, _⟩ := apiApplyMask_ok_st h hv hr
+    exact ⟨hE, hlt⟩
+  · rintro ⟨hE, hlt⟩
+    cases hr : apiApplyMask m mask mb ba with
+    | ok st => exact ⟨st, rfl⟩
+    | error e =>
+      exfalso
+      rcases (api_applyMask_error_iff h hv mask mb ba e).1 hr with h1 | ⟨_, _, p, hp, hval, hle⟩
+      · rw [hE] at h1; cases h1
+      · exact absurd (hlt p hp hval) (by omega)
+
+/-! #### what the mask map says where it has no value
+
+`apply_mask` reads the mask through `get_values_pix`, so a pixel the mask map does not cover —
+or covers but never set — is judged by the mask's BLANK cell.  "Pixels the mask does not cover
+are unmasked" is therefore true only for a mask whose blank is zero (unsigned integers with
+the default sentinel, wide masks, boolean masks with sentinel `False`); for a SIGNED integer
+mask with its default sentinel (`-2^(b-1)`, every bit pattern `≠ 0`) it is false: every valid
+pixel of the map outside the mask's valid set is blanked. -/
+
+/-- **"pixels the mask does not cover are unmasked" — under the explicit hypothesis that the
+    mask's blank cell is zero** (`…_partial`: the hypothesis is necessary, see
+    `api_applyMask_unset_nonzero` and the example below) -/
+theorem api_applyMask_unset_partial {mask : MapObj} (hm : mask.WF)
+    (hz : (mask.kind.blank mask.sent).isZero = true) (mb : Option Int) (ba : Option (List Nat))
+    (hb : mb = none ∨ ∀ b sg, mask.kind.dt = .int b sg → 0 < b)
+    {p : Nat} (hp : p < mask.npix) (hc : covered mask.c mask.st (p >>> mask.c.shift) = false) :
+    maskBad mask mb ba p = false := by
+  rw [maskBad_uncovered hm mb ba hp hc]
+  exact maskBadVal_zero mask mb ba _ hz hb
+
+/-- **FINDING (the statement without the hypothesis is false)**: for a numeric mask whose
+    sentinel is a non-zero number — every SIGNED integer mask made with the default sentinel —
+    and no `mask_bits`, every pixel that is NOT valid in the mask is bad … -/
+theorem api_applyMask_unset_nonzero {mask : MapObj} {dt : DT} {s : Int} {e : Nat}
+    (hk : mask.kind = .plain dt) (hs : mask.sent = .num s e) (hs0 : s ≠ 0)
+    (ba : Option (List Nat)) {p : Nat} (hinv : mask.vc.valid (mask.abs p) = false) :
+    maskBad mask none ba p = true := by
+  rw [maskBad_invalid_plain hk none ba hinv, hs]
+  show (s != 0) = true
+  simpa using hs0
+
+/-- … so `apply_mask` with such a mask blanks every valid pixel of the map that lies outside
+    the mask's valid set (and keeps a valid pixel only where the mask holds the value `0`) -/
+theorem api_applyMask_signed_mask {m mask : MapObj} {ba : Option (List Nat)} {st : State Val}
+    {dt : DT} {s : Int} {e : Nat} (h : m.WF) (hv : m.BlankInvalid)
+    (hk : mask.kind = .plain dt) (hs : mask.sent = .num s e) (hs0 : s ≠ 0)
+    (hr : apiApplyMask m mask none ba = .ok st) (p : Nat) (hp : p < m.npix)
+    (hinv : mask.vc.valid (mask.abs p) = false) :
+    (m.withSt st).vc.valid ((m.withSt st).abs p) = false := by
+  rw [api_applyMask_valid h hv hr p hp, api_applyMask_unset_nonzero hk hs hs0 ba hinv]
+  simp
+
+/-! ### (4) `astype`, `as_bit_packed_map` -/
+
+/-- **`astype` at the API level.**  For a well-formed map whose blank cell is invalid (automatic
+    for a numeric source; for a bit-packed source it says `sentinel = False`, which `KindOk`
+    gives): if `m.astype(dst, sentinel)` succeeds with `m'`, then `m'` is a well-formed plain map
+    of dtype `dst` at the same resolution whose sentinel is `check_sentinel(dst, sentinel)`, the
+    `n_valid` cache is cold, the coverage mask is that of `m`, and for every sky pixel `p`:
+    * `p` valid in `m`: the new value is numpy's `astype` of the old one (`convCell src dst`);
+    * `p` not valid in `m`: the cell holds the NEW sentinel. -/
+theorem api_astype_spec {m : MapObj} {dst : DT} {sentinel : Option Val} {m' : MapObj}
+    (h : m.WF) (hv : m.BlankInvalid) (hr : apiAstype m dst sentinel = .ok m') :
+    ∃ src, astypeSrc m.kind = some src ∧
+      m'.WF ∧ m'.covord = m.covord ∧ m'.spord = m.spord ∧ m'.kind = .plain dst ∧
+      checkSentinel dst sentinel = .ok m'.sent ∧ m'.cache = none ∧
+      apiCovMask m' = apiCovMask m ∧
+      ∀ p, p < m.npix →
+        (m.vc.valid (m.abs p) = true → convCell src dst (m.abs p) = some (m'.abs p)) ∧
+        (m.vc.valid (m.abs p) = false → m'.abs p = m'.sent) := by
+  obtain ⟨src, hS, hC, hany, hm'⟩ := apiAstype_ok_st hr
+  generalize m'.sent = s' at hC hm'
+  subst hm'
+  obtain ⟨hinv, habs, hcov⟩ := astype_spec m.c m.vc (⟨s', (Kind.plain dst).valid s'⟩ : VCfg Val) m.st
+    (fun x => (convCell src dst x).getD x) h.2 hv
+  refine ⟨src, hS, ⟨h.1, hinv⟩, rfl, rfl, rfl, hC, rfl, apiCovMask_congr rfl rfl hcov, fun p hp => ?_⟩
+  have hab := habs p hp
+  constructor
+  · intro hval
+    have hnone := List.any_eq_false.1 hany (m.abs p)
+      (List.mem_filter.2 ⟨abs_mem_sp h.2 hp, hval⟩)
+    cases hc : convCell src dst (m.abs p) with
+    | none => rw [hc] at hnone; exact absurd rfl hnone
+    | some y =>
+      congr 1
+      refine Eq.trans ?_ (hab.symm)
+      show y = if m.vc.valid (m.abs p) = true then (convCell src dst (m.abs p)).getD (m.abs p) else s'
+      rw [hval, hc]
+      rfl
+  · intro hval
+    refine hab.trans ?_
+    show (if m.vc.valid (m.abs p) = true then _ else s') = s'
+    rw [hval]
+    rfl
+
+/-- **the valid set after `astype`**: a pixel is valid in the result iff it is valid in the
+    source AND its converted value differs from the NEW sentinel.  A converted value that
+    collides with the new sentinel (e.g. `0.0` → `uint8` with the default sentinel `0`) silently
+    turns the pixel invalid; no pixel becomes valid. -/
+theorem api_astype_valid {m : MapObj} {dst : DT} {sentinel : Option Val} {m' : MapObj}
+    (h : m.WF) (hv : m.BlankInvalid) (hr : apiAstype m dst sentinel = .ok m') (p : Nat)
+    (hp : p < m.npix) :
+    m'.vc.valid (m'.abs p) = true ↔
+      m.vc.valid (m.abs p) = true ∧ m'.abs p ≠ m'.sent := by
+  obtain ⟨src, _, _, _, _, hk, _, _, _, hpix⟩ := api_astype_spec h hv hr
+  have hval' : ∀ x, m'.vc.valid x = (x != m'.sent) := by
+    intro x; unfold MapObj.vc; rw [hk]; rfl
+  rw [hval']
+  cases hval : m.vc.valid (m.abs p) with
+  | true => simp
+  | false => rw [(hpix p hp).2 hval]; simp
+
+/-- the valid set is preserved when no converted value collides with the new sentinel -/
+theorem api_astype_valid_preserved {m : MapObj} {dst : DT} {sentinel : Option Val} {m' : MapObj}
+    (h : m.WF) (hv : m.BlankInvalid) (hr : apiAstype m dst sentinel = .ok m')
+    (hno : ∀ p, p < m.npix → m.vc.valid (m.abs p) = true → m'.abs p ≠ m'.sent) (p : Nat)
+    (hp : p < m.npix) : m'.vc.valid (m'.abs p) = m.vc.valid (m.abs p) := by
+  have hiff := api_astype_valid h hv hr p hp
+  cases hval : m.vc.valid (m.abs p) with
+  | true => exact hiff.2 ⟨hval, hno p hp hval⟩
+  | false =>
+    rw [Bool.eq_false_iff]
+    intro h'
+    rw [hval] at hiff
+    exact absurd (hiff.1 h').1 (by simp)
+
+/-- **errors of `astype`, exactly**: `RuntimeError` for a wide mask or a record map; else the
+    `ValueError` of `check_sentinel` (a sentinel of the wrong type, or an integer sentinel outside
+    the new dtype's range); else `inexact` (no claim) when some valid pixel has no exactly
+    representable conversion -/
+theorem api_astype_error_iff {m : MapObj} (h : m.WF) (hv : m.BlankInvalid) (dst : DT)
+    (sentinel : Option Val) (e : Err) :
+    apiAstype m dst sentinel = .error e ↔
+      (astypeSrc m.kind = none ∧ e = .runtime) ∨
+      ∃ src, astypeSrc m.kind = some src ∧
+        ((checkSentinel dst sentinel = .error e ∧ e = .value) ∨
+         (e = .inexact ∧ (∃ s', checkSentinel dst sentinel = .ok s') ∧
+            ∃ p, p < m.npix ∧ m.vc.valid (m.abs p) = true ∧ convCell src dst (m.abs p) = none)) := by
+  rw [apiAstype_eq]
+  cases hS : astypeSrc m.kind with
+  | none =>
+    simp only [Except.error.injEq, true_and, reduceCtorEq, false_and, exists_false, or_false]
+    exact eq_comm
+  | some src =>
+    simp only [reduceCtorEq, false_and, false_or, Option.some.injEq, exists_eq_left']
+    cases hC : checkSentinel dst sentinel with
+    | error e' =>
+      simp only [Except.error.injEq, reduceCtorEq, exists_false, false_and, and_false, or_false]
+      constructor
+      · rintro rfl; exact ⟨rfl, checkSentinel_error hC⟩
+      · exact fun h => h.1
+    | ok s' =>
+      simp only [reduceCtorEq, false_and, false_or, Except.ok.injEq, exists_eq', true_and]
+      have hiff := any_valid_iff h.2 hv (fun x => (convCell src dst x).isNone)
+      split
+      · rename_i hany
+        obtain ⟨p, hp, hval, hq⟩ := hiff.1 hany
+        constructor
+        · intro he
+          cases he
+          exact ⟨rfl, p, hp, hval, Option.isNone_iff_eq_none.1 hq⟩
+        · rintro ⟨rfl, _⟩; rfl
+      · rename_i hany
+        simp only [reduceCtorEq, false_iff]
+        rintro ⟨_, p, hp, hval, hq⟩
+        exact hany (hiff.2 ⟨p, hp, hval, Option.isNone_iff_eq_none.2 hq⟩)
+
+/-- **errors of `as_bit_packed_map`, exactly**: `ValueError` iff the map is not already
+    bit-packed and there are fewer than two healpix levels between the coverage and the sparse
+    resolution (`nfine_per_cov % 8 ≠ 0`).  ANY kind of map is accepted (numeric, boolean with
+    either sentinel, wide mask, record): the result records the VALID SET only. -/
+theorem api_asBitPacked_error_iff (m : MapObj) (e : Err) :
+    apiAsBitPacked m = .error e ↔ m.kind ≠ .packed ∧ m.spord < m.covord + 2 ∧ e = .value := by
+  rw [apiAsBitPacked_eq]
+  have hmod : m.c.nfine % 8 = 0 ↔ m.covord + 2 ≤ m.spord := nfine_mod8 m.covord m.spord
+  by_cases hk : m.kind = .packed
+  · simp [hk]
+  · simp only [hk, ↓reduceIte, ne_eq, not_false_eq_true, true_and]
+    by_cases h8 : m.c.nfine % 8 = 0
+    · have := hmod.1 h8
+      simp only [h8, not_true_eq_false, ↓reduceIte, reduceCtorEq, false_iff, not_and]
+      intro hlt
+      omega
+    · have : m.spord < m.covord + 2 := by
+        apply Nat.lt_of_not_le
+        exact fun hle => h8 (hmod.2 hle)
+      simp only [h8, not_false_eq_true, ↓reduceIte, Except.error.injEq, this, true_and]
+      exact eq_comm
+
+/-- **`as_bit_packed_map` at the API level.**  For a well-formed map whose blank cell is invalid:
+    the result is a well-formed bit-packed map at the same resolution with a cold `n_valid`
+    cache and the same coverage mask, whose VALID SET IS THE SOURCE'S; when the source is not
+    already bit-packed the result has sentinel `False` and holds `True` exactly on the valid
+    pixels of the source; a bit-packed source is returned as a copy. -/
+theorem api_asBitPacked_spec {m m' : MapObj} (h : m.WF) (hv : m.BlankInvalid)
+    (hr : apiAsBitPacked m = .ok m') :
+    m'.WF ∧ m'.covord = m.covord ∧ m'.spord = m.spord ∧ m'.kind = .packed ∧ m'.cache = none ∧
+    apiCovMask m' = apiCovMask m ∧
+    (m.kind = .packed → m' = { m with cache := none }) ∧
+    (m.kind ≠ .packed → m'.sent = .bool false ∧
+      ∀ p, p < m.npix → m'.abs p = .bool (m.vc.valid (m.abs p))) ∧
+    ∀ p, p < m.npix → m'.vc.valid (m'.abs p) = m.vc.valid (m.abs p) := by
+  rw [apiAsBitPacked_eq] at hr
+  by_cases hk : m.kind = .packed
+  · rw [if_pos hk] at hr
+    cases hr
+    exact ⟨h, rfl, rfl, hk, rfl, rfl, fun _ => rfl, fun hne => absurd hk hne, fun _ _ => rfl⟩
+  · rw [if_neg hk] at hr
+    split at hr
+    · cases hr
+    · cases hr
+      obtain ⟨hinv, habs, hcov⟩ := asBitPacked_spec m.c m.vc m.st h.2 hv
+      have hinv' : Inv m.c (⟨.bool false, Kind.packed.valid (.bool false)⟩ : VCfg Val)
+          (mapCells (asBitPacked m.c m.vc m.st) Val.bool) :=
+        inv_mapCells m.c (⟨false, fun b => b⟩ : VCfg Bool) _ _ Val.bool hinv rfl
+      have hab : ∀ p, p < m.npix →
+          abs m.c (⟨.bool false, Kind.packed.valid (.bool false)⟩ : VCfg Val)
+            (mapCells (asBitPacked m.c m.vc m.st) Val.bool) p = .bool (m.vc.valid (m.abs p)) := by
+        intro p hp
+        rw [abs_mapCells m.c (⟨false, fun b => b⟩ : VCfg Bool) _ _ Val.bool hinv p hp, habs p hp]
+        rfl
+      refine ⟨⟨h.1, hinv'⟩, rfl, rfl, rfl, rfl, ?_, fun hp => absurd hp hk,
+        fun _ => ⟨rfl, hab⟩, fun p hp => ?_⟩
+      · apply apiCovMask_congr rfl rfl
+        intro k
+        exact hcov k
+      · have := hab p hp
+        show Kind.packed.valid (.bool false) (abs m.c
+          (⟨.bool false, Kind.packed.valid (.bool false)⟩ : VCfg Val)
+          (mapCells (asBitPacked m.c m.vc m.st) Val.bool) p) = _
+        rw [this]
+        cases m.vc.valid (m.abs p) <;> rfl
+
+/-! ### non-vacuity and counterexamples (API level) -/
+
+/-- a uint16 map (default sentinel 0; 12 coverage pixels × 4 cells): pixel 4 ↦ 5, pixel 5 ↦ 9 -/
+def exU16 : Except Err MapObj := do
+  let m ← apiMakeEmpty 0 1 (.plain (.int 16 false)) none [1]
+  apiUpdate m "replace" [4, 5] (some [.num 5 0, .num 9 0]) false
+
+/-- a float64 map: pixel 4 ↦ 0.0, pixel 5 ↦ 2.5, pixel 40 ↦ 7.0 -/
+def exF64 : Except Err MapObj := do
+  let m ← apiMakeEmpty 0 1 (.plain (.flt 64)) none []
+  apiUpdate m "replace" [4, 5, 40] (some [.num 0 0, .num 5 1, .num 7 0]) false
+
+/-- a wide mask (2 bytes): pixel 4 has bits 1 and 9, pixel 5 has bit 3 -/
+def exWide : Except Err MapObj := do
+  let m ← apiMakeEmpty 0 1 (.wide 2) none []
+  let m ← apiSetBits m [4] [1, 9] false
+  apiSetBits m [5] [3] false
+
+/-- is the result this error? -/
+def isErr {α : Type} (r : Except Err α) (e : Err) : Bool :=
+  match r with
+  | .error e' => e' == e
+  | .ok _ => false
+
+/-- (1) `m - 5` on the uint16 map: `api_scalarOp_spec` applies (`m.WF`, success); pixel 5 becomes
+    `9 - 5 = 4`; pixel 4 becomes `5 - 5 = 0`, THE SENTINEL, and is no longer valid
+    (`api_scalarOp_collision`); the unset pixel 6 and the uncovered pixel 40 keep the blank -/
+example : okAnd exU16 (fun m => decide m.WF &&
+    okAnd (apiScalarOp m "sub" (.int 5)) (fun st =>
+      (m.withSt st).abs 5 == .num 4 0 && (m.withSt st).abs 4 == .num 0 0 &&
+      m.vc.valid (m.abs 4) && !(m.withSt st).vc.valid ((m.withSt st).abs 4) &&
+      (m.withSt st).abs 6 == .num 0 0 && (m.withSt st).abs 40 == .num 0 0 &&
+      apiCovMask (m.withSt st) == apiCovMask m)) = true := by decide +kernel
+
+/-- (1) every error class of `sopError` occurs: integer map — a Python integer out of range
+    (`OverflowError`; on an unsigned map that includes the exponent `-1`), a real constant
+    (`TypeError`), an integer-only operator with a real constant, true division, a bit list, a
+    negative power of a signed map (`ValueError`); float map — an integer-only operator; wide mask —
+    an arithmetic operator, a constant, an empty bit list, a bit position `≥ maxbits`; `inexact`
+    (`0.1` is not a dyadic the model multiplies exactly … here: division by 3) -/
+example : okAnd exU16 (fun m =>
+      isErr (apiScalarOp m "add" (.int 70000)) .type && isErr (apiScalarOp m "add" (.int (-1))) .type &&
+      isErr (apiScalarOp m "add" (.flt (1, 1))) .type && isErr (apiScalarOp m "and" (.flt (1, 1))) .notImpl &&
+      isErr (apiScalarOp m "div" (.int 2)) .type && isErr (apiScalarOp m "pow" (.int (-1))) .type &&
+      isErr (apiScalarOp m "or" (.bits [1])) .notImpl) = true ∧
+    okAnd (apiMakeEmpty 0 1 (.plain (.int 16 true)) none []) (fun m =>
+      isErr (apiScalarOp m "pow" (.int (-1))) .value) = true ∧
+    okAnd exF64 (fun m =>
+      isErr (apiScalarOp m "xor" (.int 1)) .notImpl && isErr (apiScalarOp m "div" (.int 3)) .inexact &&
+      okAnd (apiScalarOp m "div" (.int 2)) (fun st => (m.withSt st).abs 5 == .num 5 2)) = true ∧
+    okAnd exWide (fun m =>
+      isErr (apiScalarOp m "add" (.bits [1])) .notImpl && isErr (apiScalarOp m "or" (.int 1)) .notImpl &&
+      isErr (apiScalarOp m "or" (.bits [])) .value && isErr (apiScalarOp m "or" (.bits [16])) .value &&
+      okAnd (apiScalarOp m "and" (.bits [1, 3])) (fun st =>
+        (m.withSt st).abs 4 == .bytes [2, 0] && (m.withSt st).abs 5 == .bytes [8, 0] &&
+        (m.withSt st).abs 6 == .bytes [0, 0]) &&
+      -- `& [9]` clears every bit of pixel 5: the pixel becomes invalid
+      okAnd (apiScalarOp m "and" (.bits [9])) (fun st =>
+        (m.withSt st).abs 4 == .bytes [0, 2] && !(m.withSt st).vc.valid ((m.withSt st).abs 5))) = true := by
+  decide +kernel
+
+/-- (3) masks over the float map (valid pixels 4, 5, 40).
+    An unsigned (uint8, sentinel 0) mask with pixel 4 set: only pixel 4 is blanked — the
+    hypotheses of `api_applyMask_unset_partial` hold.
+    **COUNTEREXAMPLE to "pixels the mask does not cover are unmasked"**: the SAME mask values in
+    an int32 map with the default sentinel `-2^31`: pixels 5 and 40, which the mask never set
+    (40 is not even covered by it), are blanked as well — `api_applyMask_signed_mask`.  With
+    `mask_bits = 4` the sentinel's bits are not selected and only pixel 4 is blanked. -/
+example : okAnd exF64 (fun m => decide m.WF && decide m.BlankInvalid &&
+    okAnd (do let k ← apiMakeEmpty 0 1 (.plain (.int 8 false)) none []
+              apiUpdate k "replace" [4] (some [.num 4 0]) false) (fun mask =>
+      decide mask.WF && (mask.kind.blank mask.sent).isZero &&
+      okAnd (apiApplyMask m mask none none) (fun st =>
+        !(m.withSt st).vc.valid ((m.withSt st).abs 4) && (m.withSt st).abs 5 == .num 5 1 &&
+        (m.withSt st).abs 40 == .num 7 0)) &&
+    okAnd (do let k ← apiMakeEmpty 0 1 (.plain (.int 32 true)) none []
+              apiUpdate k "replace" [4] (some [.num 4 0]) false) (fun mask =>
+      decide mask.WF && mask.sent == .num (-2147483648) 0 &&
+      okAnd (apiApplyMask m mask none none) (fun st =>
+        !(m.withSt st).vc.valid ((m.withSt st).abs 4) && !(m.withSt st).vc.valid ((m.withSt st).abs 5) &&
+        !(m.withSt st).vc.valid ((m.withSt st).abs 40)) &&
+      okAnd (apiApplyMask m mask (some 4) none) (fun st =>
+        !(m.withSt st).vc.valid ((m.withSt st).abs 4) && (m.withSt st).abs 5 == .num 5 1 &&
+        (m.withSt st).abs 40 == .num 7 0) &&
+      isErr (apiApplyMask m mask (some 4294967296) none) .type)) = true := by decide +kernel
+
+/-- (3) a wide mask (any byte / selected bits), the error classes of `maskError`, and a mask of
+    ANOTHER resolution: a coarser mask (`spord = 0`, 12 pixels) raises `IndexError` because the
+    valid pixel 40 is not one of its pixel numbers; a FINER mask (`spord = 2`) is accepted without
+    complaint — pixel NUMBER 4 of the map is looked up as pixel number 4 of the mask, a different
+    place on the sky (the library does not compare `nside_sparse`) -/
+example : okAnd exF64 (fun m => okAnd exWide (fun wm =>
+      okAnd (apiApplyMask m wm none none) (fun st =>
+        !(m.withSt st).vc.valid ((m.withSt st).abs 4) && !(m.withSt st).vc.valid ((m.withSt st).abs 5) &&
+        (m.withSt st).abs 40 == .num 7 0) &&
+      okAnd (apiApplyMask m wm none (some [3])) (fun st =>
+        (m.withSt st).abs 4 == .num 0 0 && !(m.withSt st).vc.valid ((m.withSt st).abs 5)) &&
+      isErr (apiApplyMask m wm (some 1) none) .runtime && isErr (apiApplyMask m wm none (some [16])) .index &&
+      isErr (apiApplyMask m m none none) .runtime) &&
+    okAnd (apiMakeEmpty 0 0 (.plain (.int 8 false)) none []) (fun coarse =>
+      isErr (apiApplyMask m coarse none none) .index) &&
+    okAnd (do let k ← apiMakeEmpty 0 2 (.plain (.int 8 false)) none []
+              apiUpdate k "replace" [4] (some [.num 1 0]) false) (fun fine =>
+      okAnd (apiApplyMask m fine none none) (fun st =>
+        !(m.withSt st).vc.valid ((m.withSt st).abs 4) && (m.withSt st).abs 5 == .num 5 1))) = true := by
+  decide +kernel
+
+/-- (4) `astype`: float64 → uint8 with the default sentinel 0: `2.5 ↦ 2`, `7.0 ↦ 7`, and the
+    valid value `0.0` COLLIDES with the new sentinel: pixel 4 is no longer valid
+    (`api_astype_valid`); with `sentinel = 255` nothing collides and the valid set is preserved;
+    a sentinel that does not fit (`256` for uint8, a boolean for an integer dtype) is
+    `ValueError`; a wide mask is `RuntimeError`; uint16 9 → float is exact; 70000.0 → uint16 is
+    `inexact` (undefined behaviour in C) -/
+example : okAnd exF64 (fun m => decide m.WF && decide m.BlankInvalid &&
+      okAnd (apiAstype m (.int 8 false) none) (fun m' =>
+        decide m'.WF && m'.sent == .num 0 0 && m'.abs 5 == .num 2 0 && m'.abs 40 == .num 7 0 &&
+        m.vc.valid (m.abs 4) && !m'.vc.valid (m'.abs 4) && m'.abs 6 == .num 0 0 &&
+        apiCovMask m' == apiCovMask m) &&
+      okAnd (apiAstype m (.int 8 false) (some (.num 255 0))) (fun m' =>
+        m'.abs 4 == .num 0 0 && m'.vc.valid (m'.abs 4) && m'.abs 6 == .num 255 0 &&
+        (List.range m.npix).all (fun p => m'.vc.valid (m'.abs p) == m.vc.valid (m.abs p))) &&
+      isErr (apiAstype m (.int 8 false) (some (.num 256 0))) .value &&
+      isErr (apiAstype m (.int 8 false) (some (.bool true))) .value) = true ∧
+    okAnd exWide (fun m => isErr (apiAstype m (.flt 64) none) .runtime) = true ∧
+    okAnd exU16 (fun m => okAnd (apiAstype m (.flt 32) none) (fun m' => m'.abs 5 == .num 9 0)) = true ∧
+    okAnd (do let m ← apiMakeEmpty 0 1 (.plain (.flt 64)) none []
+              apiUpdate m "replace" [4] (some [.num 70000 0]) false) (fun m =>
+      isErr (apiAstype m (.int 16 false) none) .inexact) = true := by
+  decide +kernel
+
+/-- (4) `as_bit_packed_map`: with ONE level between coverage and sparse resolution
+    (`nfine = 4`) every non-packed map is refused (`ValueError`); with two levels a uint16 map, a
+    wide mask and a boolean map with sentinel `True` (valid = the `False` cells) are all
+    converted, `True` exactly on the valid pixels; a bit-packed map is returned as it is -/
+example : okAnd exU16 (fun m => isErr (apiAsBitPacked m) .value) = true ∧
+    okAnd (do let m ← apiMakeEmpty 0 2 (.plain (.int 16 false)) none [1]
+              apiUpdate m "replace" [4, 21] (some [.num 5 0]) true) (fun m =>
+      decide m.WF && okAnd (apiAsBitPacked m) (fun m' =>
+        decide m'.WF && m'.kind == .packed && m'.abs 4 == .bool true && m'.abs 21 == .bool true &&
+        m'.abs 5 == .bool false && m'.abs 100 == .bool false &&
+        (List.range m.npix).all (fun p => m'.vc.valid (m'.abs p) == m.vc.valid (m.abs p)) &&
+        okAnd (apiAsBitPacked m') (fun m'' => m''.abs 4 == .bool true && m''.kind == .packed))) = true ∧
+    okAnd (do let m ← apiMakeEmpty 0 2 (.plain .bool) (some (.bool true)) [0]
+              apiUpdate m "replace" [3] (some [.bool false]) true) (fun m =>
+      decide m.WF && decide m.BlankInvalid && okAnd (apiAsBitPacked m) (fun m' =>
+        m'.abs 3 == .bool true && m'.abs 2 == .bool false && m'.sent == .bool false)) = true ∧
+    okAnd (do let m ← apiMakeEmpty 0 2 (.wide 2) none []
+              apiSetBits m [7] [9] false) (fun m =>
+      okAnd (apiAsBitPacked m) (fun m' => m'.abs 7 == .bool true && m'.abs 8 == .bool false)) = true := by
+  decide +kernel
+
+/-! (2) the driver.  `sop_inplace_eq_copy` instantiated with the argument records of
+`sop m op=sub k=5 inplace=1` / `sop m op=sub k=5 r=q` in an arbitrary good world holding an owning
+map under `m` (the kernel cannot run the number parser inside `sopArg`: the two `sopArg` facts are
+hypotheses here and are checked by evaluation just below) -/
+example (w : World) (hw : w.Good) (m : MapObj) (hget : w.get? "m" = some m) (hown : m.view = none)
+    (h1 : sopArg ⟨["m"], [("op", "sub"), ("k", "5"), ("inplace", "1")]⟩ = some (.int 5))
+    (h2 : sopArg ⟨["m"], [("op", "sub"), ("k", "5"), ("r", "q")]⟩ = some (.int 5)) :
+    (stepArgs w "sop" ⟨["m"], [("op", "sub"), ("k", "5"), ("inplace", "1")]⟩).2
+      = (stepArgs w "sop" ⟨["m"], [("op", "sub"), ("k", "5"), ("r", "q")]⟩).2 :=
+  (sop_inplace_eq_copy hw (restI := []) (restC := []) rfl rfl hget hown h1 h2
+    (by decide +kernel) (by decide +kernel) (by decide +kernel)).1
+
+#guard (match sopArg ⟨["m"], [("op", "sub"), ("k", "5"), ("inplace", "1")]⟩ with
+  | some (.int 5) => true | _ => false)
+#guard (match sopArg ⟨["m"], [("op", "sub"), ("k", "5"), ("r", "q")]⟩ with
+  | some (.int 5) => true | _ => false)
+#guard (match sopArg ⟨["m"], [("op", "and"), ("bits", "3,9")]⟩ with
+  | some (.bits [3, 9]) => true | _ => false)
+#guard (match sopArg ⟨["m"], [("op", "mul"), ("k", "3^1"), ("ktype", "flt")]⟩ with
+  | some (.flt (3, 1)) => true | _ => false)
+
+/-- protocol histories (evaluated): the uint16 map of `exU16`, a boolean map `b` -/
+def sopBase : List String :=
+  ["cfg m kind=plain dtype=u2 covord=0 spord=1 covpix=1", "upd m pix=4,5 vals=5,9",
+   "cfg b kind=plain dtype=b1 covord=0 spord=1", "upd b pix=3 val=T"]
+
+def sopAns (h : List String) (q : String) : String := (step (runLines h) q).2
+
+-- in place and copying store the same arrays; the copying form leaves the operand alone
+#guard sopAns (sopBase ++ ["sop m op=sub k=5 inplace=1"]) "dump m"
+    == sopAns (sopBase ++ ["sop m op=sub k=5 r=q"]) "dump q"
+#guard sopAns (sopBase ++ ["sop m op=sub k=5 inplace=1"]) "get m pix=4,5,6,40" == "0,4,0,0"
+#guard sopAns (sopBase ++ ["sop m op=sub k=5 inplace=1"]) "valid m" == "5"
+#guard sopAns (sopBase ++ ["sop m op=sub k=5 r=q"]) "dump m" == sopAns sopBase "dump m"
+-- the n_valid cache of the operand: reset by a successful in-place call, …
+#guard ((runLines (sopBase ++ ["nvalid m", "sop m op=sub k=5 inplace=1"])).get? "m").map (·.cache) == some none
+#guard sopAns (sopBase ++ ["nvalid m", "sop m op=sub k=5 inplace=1"]) "nvalid m" == "1"
+-- … reset by an in-place call that fails AFTER line 2376 (true division of an integer map), …
+#guard sopAns (sopBase ++ ["nvalid m"]) "sop m op=div k=2 inplace=1" == "err TypeError"
+#guard ((runLines (sopBase ++ ["nvalid m", "sop m op=div k=2 inplace=1"])).get? "m").map (·.cache) == some none
+-- … kept by the copying form and by an EARLY failure (a boolean map)
+#guard ((runLines (sopBase ++ ["nvalid m", "sop m op=div k=2 r=q"])).get? "m").map (·.cache) == some (some 2)
+#guard sopAns (sopBase ++ ["nvalid b"]) "sop b op=add k=1 inplace=1" == "err NotImplementedError"
+#guard ((runLines (sopBase ++ ["nvalid b", "sop b op=add k=1 inplace=1"])).get? "b").map (·.cache) == some (some 1)
+-- apply_mask by a signed mask with the default sentinel blanks everything (see the example above)
+#guard sopAns (sopBase ++ ["cfg k kind=plain dtype=i4 covord=0 spord=1", "upd k pix=4 val=4",
+    "mask m by=k r=q"]) "valid q" == "_"
+#guard sopAns (sopBase ++ ["cfg k kind=plain dtype=u1 covord=0 spord=1", "upd k pix=4 val=4",
+    "mask m by=k r=q"]) "valid q" == "5"
 
 end C12
 end HS
